@@ -100,6 +100,11 @@ def gen_out(ck, limit, step):
         add([["enq", {"kind": "call", "size": first, "seed": 1, "plain": True}],
              ["enq", {"kind": "call", "size": max(0, second), "seed": 2, "plain": True}],
              ["enq", {"kind": "ping"}], ["flush"]], "refused_after_enqueued")
+    # a message queued behind another one, ending at every offset relative to the buffer end
+    # (exact multiples of the step, one less, one more: "whatever its size relative to the step")
+    for sz in range(120, 120 + step + 8):
+        add([["enq", {"kind": "call", "size": 30, "seed": 4, "plain": True}],
+             ["enq", {"kind": "call", "size": sz, "seed": 8, "plain": True}], ["flush"]], "queued_exact_fit_sweep")
     for i in range(10 if quick else 100):
         add([["send", {"kind": "badreply", "size": limit - rng.randrange(0, 400), "seed": 5, "plain": True}],
              ["send", {"kind": "busy"}]], "badkey_near_limit")
